@@ -34,8 +34,11 @@ enum Where {
     EndAfterShutdown,
     /// two tasks registered with try_join: one that finishes at once, then one that panics at 2 s
     TryJoinPair,
+    /// at its n-th message the callback hands work to a task of the module (a channel the task
+    /// reads and forwards to another module) and panics afterwards
+    MsgFeedsTask(u32),
 }
-const PLACES: [Where; 15] = [Where::None, Where::Start(0), Where::Start(1), Where::Msg(1), Where::Msg(2), Where::Msg(3), Where::Msg(5), Where::End, Where::Task, Where::TaskThenShutdown, Where::TaskThenRestart, Where::RestartStage(0), Where::RestartStage(1), Where::EndAfterShutdown, Where::TryJoinPair];
+const PLACES: [Where; 16] = [Where::None, Where::MsgFeedsTask(2), Where::Start(0), Where::Start(1), Where::Msg(1), Where::Msg(2), Where::Msg(3), Where::Msg(5), Where::End, Where::Task, Where::TaskThenShutdown, Where::TaskThenRestart, Where::RestartStage(0), Where::RestartStage(1), Where::EndAfterShutdown, Where::TryJoinPair];
 
 struct P {
     log: Log,
@@ -48,6 +51,7 @@ struct P {
     out: bool,
     went_down: bool,
     inc: u32,
+    feed: Option<tokio::sync::mpsc::UnboundedSender<u32>>,
 }
 impl Module for P {
     fn num_sim_start_stages(&self) -> usize {
@@ -75,6 +79,18 @@ impl Module for P {
                 for i in 0..6 {
                     des::time::sleep(Duration::from_millis(1500)).await;
                     lg(&l, format!("{name}:tick{i}"));
+                }
+            });
+        }
+        if st == 1 && matches!(self.fault, Where::MsgFeedsTask(_)) {
+            let (tx, mut rx) = tokio::sync::mpsc::unbounded_channel::<u32>();
+            self.feed = Some(tx);
+            let l = self.log.clone();
+            let name = self.name;
+            tokio::spawn(async move {
+                while let Some(k) = rx.recv().await {
+                    lg(&l, format!("{name}:fed{k}"));
+                    send(Message::default().kind(3), "out");
                 }
             });
         }
@@ -139,6 +155,19 @@ impl Module for P {
             if self.n == 2 && self.inc == 1 && matches!(self.fault, Where::RestartStage(_)) {
                 current().shutdow_and_restart_in(Duration::from_secs(1));
             }
+            if self.fault == Where::MsgFeedsTask(self.n + 1) {
+                // a regular hand-over one message earlier: the task works
+                let _ = self.feed.as_ref().unwrap().send(self.n);
+            }
+            if self.fault == Where::MsgFeedsTask(self.n) {
+                if self.silent_variant {
+                    self.silent = true;
+                    current().shutdown();
+                } else {
+                    let _ = self.feed.as_ref().unwrap().send(self.n);
+                    panic!("boom")
+                }
+            }
             if self.fault == Where::Msg(self.n) {
                 if self.silent_variant {
                     self.silent = true;
@@ -183,7 +212,7 @@ fn run(c: &Case, silent_variant: bool) -> RunOut {
     let r = quiet_catch(move || {
         let log = l2;
         let mut sim = Sim::new(());
-        let mk = |name, fault, catching, out| P { log: log.clone(), name, fault, silent_variant, n: 0, silent: false, catching, out, went_down: false, inc: 0 };
+        let mk = |name, fault, catching, out| P { log: log.clone(), name, fault, silent_variant, n: 0, silent: false, catching, out, went_down: false, inc: 0, feed: None };
         sim.node("a", mk("a", Where::None, false, true));
         sim.node("f", mk("f", c.f, c.cf, true));
         sim.node("g", mk("g", c.g, c.cg, true));
@@ -217,7 +246,7 @@ fn case_json(c: &Case) -> Value {
 fn case_from(v: &Value) -> Case {
     let w = |s: &str| -> Where {
         let mut all = PLACES.to_vec();
-        all.extend([Where::Msg(4), Where::Msg(6), Where::Msg(7)]);
+        all.extend([Where::Msg(4), Where::Msg(6), Where::Msg(7), Where::MsgFeedsTask(3)]);
         *all.iter().find(|p| format!("{p:?}") == s).unwrap()
     };
     Case {
@@ -417,7 +446,7 @@ impl Property for C13 {
         ]
     }
     fn required_features(&self, _tier: Tier) -> Vec<&'static str> {
-        vec!["single_fault", "two_faulty_modules", "three_faulty_modules", "catching_stereotype", "fault_in_start_stage", "fault_in_teardown", "fault_in_joined_task", "fault_in_nth_message", "joined_task_panic_then_shutdown_of_the_module", "fault_in_start_stage_of_a_restart", "fault_in_teardown_of_a_shut_down_module", "building_block_failability_policies"]
+        vec!["single_fault", "two_faulty_modules", "three_faulty_modules", "catching_stereotype", "fault_in_start_stage", "fault_in_teardown", "fault_in_joined_task", "fault_in_nth_message", "joined_task_panic_then_shutdown_of_the_module", "fault_in_start_stage_of_a_restart", "fault_in_teardown_of_a_shut_down_module", "building_block_failability_policies", "panicking_callback_handed_work_to_a_task_before"]
     }
     fn explore(&self, ctx: &mut Ctx) {
         let clean = run(&CLEAN, false);
@@ -435,7 +464,7 @@ impl Property for C13 {
         }
         let places: Vec<Where> = if ctx.tier == Tier::Thorough {
             let mut p = PLACES.to_vec();
-            p.extend([Where::Msg(4), Where::Msg(6), Where::Msg(7)]);
+            p.extend([Where::Msg(4), Where::Msg(6), Where::Msg(7), Where::MsgFeedsTask(3)]);
             p
         } else {
             PLACES.to_vec()
@@ -490,6 +519,7 @@ impl Property for C13 {
                                 Where::Task | Where::TryJoinPair => ctx.hit("fault_in_joined_task"),
                                 Where::TaskThenShutdown | Where::TaskThenRestart => ctx.hit("joined_task_panic_then_shutdown_of_the_module"),
                                 Where::Msg(_) => ctx.hit("fault_in_nth_message"),
+                                Where::MsgFeedsTask(_) => ctx.hit("panicking_callback_handed_work_to_a_task_before"),
                                 Where::None => {}
                             }
                         }
